@@ -178,10 +178,16 @@ func (fr *frame) instr(b *ssa.BasicBlock, ins ssa.Instruction, st *state) bool {
 		fr.env[x] = &Term{S: v.S, T: x.Type(), Clo: v.Clo, Loc: v.Loc}
 	case *ssa.ChangeInterface:
 		v := fr.val(x.X)
-		if g.U.sortOf(x.X.Type()) != g.U.sortOf(x.Type()) {
+		fs, ts := g.U.sortOf(x.X.Type()), g.U.sortOf(x.Type())
+		switch {
+		case fs == ts:
+			fr.env[x] = &Term{S: v.S, T: x.Type()}
+		case fs == "Err" && ts == "Val":
+			fr.env[x] = &Term{S: "(ite (= " + v.S + " ENil) VNil (VOther 1 (eid " + v.S + ")))", T: x.Type()}
+		default:
 			g.rejectf("ChangeInterface %s -> %s", x.X.Type(), x.Type())
+			fr.env[x] = &Term{S: g.zero(x.Type()), T: x.Type()}
 		}
-		fr.env[x] = &Term{S: v.S, T: x.Type()}
 	case *ssa.MakeInterface:
 		fr.makeInterface(x, st)
 	case *ssa.TypeAssert:
@@ -441,7 +447,15 @@ func (fr *frame) binop(x *ssa.BinOp, st *state) {
 	a, b := fr.val(x.X), fr.val(x.Y)
 	ot := x.X.Type()
 	srt := g.U.sortOf(ot)
-	set := func(s string) { fr.env[x] = &Term{S: s, T: x.Type()} }
+	set := func(s string) {
+		// integer results are named: keeps ground terms E-matching friendly (no ite/mod under selects)
+		if g.U.sortOf(x.Type()) == "Int" && strings.HasPrefix(s, "(") {
+			n := g.fresh(fr.name(x), "Int")
+			g.assert("(= " + n + " " + s + ")")
+			s = n
+		}
+		fr.env[x] = &Term{S: s, T: x.Type()}
+	}
 	switch x.Op {
 	case token.EQL, token.NEQ:
 		var e string
@@ -813,6 +827,11 @@ func (fr *frame) typeAssert(x *ssa.TypeAssert, st *state) {
 	if x.CommaOk {
 		// the value component is the zero value when the assertion fails
 		val := "(ite " + is + " " + payload + " " + g.zero(at) + ")"
+		if srt := g.U.sortOf(at); srt != "" {
+			n := g.fresh(fr.name(x)+"_v", srt)
+			g.assert("(= " + n + " " + val + ")")
+			val = n
+		}
 		fr.env[x] = &Term{T: x.Type(), Tuple: []*Term{{S: val, T: at}, {S: is, T: types.Typ[types.Bool]}}}
 		return
 	}
